@@ -37,10 +37,153 @@ TEMPLATES = []
 
 
 def try_replay(prop, o, f, eng, run_dir):
-    if f.get("undecided") or not f.get("model"):
+    if f.get("undecided"):
         return None
     for t in TEMPLATES:
         r = t(prop, o, f, eng, run_dir)
         if r is not None:
             return r
     return None
+
+
+# ---------------------------------------------------------------------------------------------
+# FSM lemmas: the counterexample is a (status, event) pair; the replay drives the real go-statemachine planner with the
+# real ChannelEvents / ChannelStateEntryFuncs / ChannelFinalityStates from that status with that event and confirms
+# the transition the engine computed from the extracted table (next status, whether the entry function ran).
+ERR_EVENTS = ("Error", "Disconnected", "RequestCancelled", "SendDataError", "ReceiveDataError")
+U64_EVENTS = ("DataSentProgress", "DataQueuedProgress", "DataReceivedProgress", "SetDataLimit")
+I64_EVENTS = ("DataSent", "DataQueued", "DataReceived")
+VOUCHER_EVENTS = ("NewVoucher", "NewVoucherResult")
+
+FSM_TEST = r'''package channels
+
+import (
+	"context"
+	"errors"
+	"sync/atomic"
+	"testing"
+	"time"
+
+	"github.com/ipfs/go-datastore"
+	dss "github.com/ipfs/go-datastore/sync"
+	"github.com/ipfs/go-test/random"
+	peer "github.com/libp2p/go-libp2p/core/peer"
+
+	datatransfer "github.com/filecoin-project/go-data-transfer/v2"
+	"github.com/filecoin-project/go-data-transfer/v2/channels/internal"
+	"github.com/filecoin-project/go-data-transfer/v2/testutil"
+)
+
+var _ = errors.New
+
+type verifReplayEnv struct {
+	cleanups int32
+	release  chan struct{}
+}
+
+func (e *verifReplayEnv) Protect(id peer.ID, tag string)        {}
+func (e *verifReplayEnv) Unprotect(id peer.ID, tag string) bool { return false }
+func (e *verifReplayEnv) ID() peer.ID                           { return peer.ID("") }
+func (e *verifReplayEnv) CleanupChannel(chid datatransfer.ChannelID) {
+	atomic.AddInt32(&e.cleanups, 1)
+	<-e.release // keep the channel in its cleanup status so that the status after this one event can be read
+}
+
+func TestVerifReplayFSM(t *testing.T) {
+	ctx, cancel := context.WithTimeout(context.Background(), 20*time.Second)
+	defer cancel()
+	ds := dss.MutexWrap(datastore.NewMapDatastore())
+	env := &verifReplayEnv{release: make(chan struct{})}
+	defer close(env.release)
+	peers := random.Peers(2)
+	c, err := New(ds, func(datatransfer.Event, datatransfer.ChannelState) {}, env, peers[0])
+	if err != nil {
+		t.Skip("setup:", err)
+	}
+	if err := c.Start(ctx); err != nil {
+		t.Skip("setup:", err)
+	}
+	voucher := testutil.NewTestTypedVoucher()
+	_ = voucher
+	chid := datatransfer.ChannelID{Initiator: peers[0], Responder: peers[1], ID: 7}
+	err = c.stateMachines.Begin(chid, &internal.ChannelState{
+		SelfPeer: peers[0], TransferID: 7, Initiator: peers[0], Responder: peers[1], BaseCid: random.Cids(1)[0],
+		Selector: internal.CborGenCompatibleNode{Node: testutil.AllSelector()}, Sender: peers[0], Recipient: peers[1],
+		Stages:   &datatransfer.ChannelStages{},
+		Vouchers: []internal.EncodedVoucher{{Type: voucher.Type, Voucher: internal.CborGenCompatibleNode{Node: voucher.Voucher}}},
+		Status:   datatransfer.Status(@STATUS@),
+	})
+	if err != nil {
+		t.Skip("setup:", err)
+	}
+	sendErr := c.stateMachines.Send(chid, datatransfer.EventCode(@EVENT@)@ARGS@)
+	var out internal.ChannelState
+	if err := c.stateMachines.GetSync(ctx, chid, &out); err != nil {
+		t.Skip("read back:", err)
+	}
+	time.Sleep(300 * time.Millisecond) // an entry function, if any, has started by now
+	var out2 internal.ChannelState
+	_ = c.stateMachines.Get(chid).Get(&out2)
+	ran := atomic.LoadInt32(&env.cleanups) > 0
+	t.Logf("real code: %s --%s--> %s, entry function ran: %v, send error: %v", datatransfer.Statuses[datatransfer.Status(@STATUS@)],
+		datatransfer.Events[datatransfer.EventCode(@EVENT@)], datatransfer.Statuses[out2.Status], ran, sendErr)
+	if uint64(out2.Status) != @NEXT@ || ran != @ENTRY@ {
+		t.Skipf("VERIF-REPLAY-MODEL-MISMATCH: the engine computed next status %d, entry function ran %v", @NEXT@, @ENTRY@)
+	}
+	t.Fatalf("VERIF-REPLAY-CONFIRMED: the transition of the counterexample exists on the real code (obligation @OBL@)")
+}
+'''
+
+
+def fsm_template(prop, o, f, eng, run_dir):
+    if o.get("kind") != "lemma" or not f.get("status") or getattr(eng, "fsm", None) is None:
+        return None
+    fsm = eng.fsm
+    if not f.get("event"):
+        # the lemma names its event literally instead of quantifying over events: take it if it is the only one named
+        import re
+        m = re.search(r"lemma\[(.*)\]$", o["name"])
+        decl = [d for d in eng.decls if d.kind == "lemma" and m and d.name == m.group(1)]
+        if decl:
+            words = set(re.findall(r"[A-Za-z_]\w*", decl[0].clauses[0].text))
+            evs = [n for n in fsm.event_names.values() if n in words]
+            if len(evs) == 1:
+                f = dict(f, event=evs[0])
+    if not f.get("event"):
+        return None
+    byev = {v: k for k, v in fsm.event_names.items()}
+    byst = {v: k for k, v in fsm.status_names.items()}
+    if f["event"] not in byev or f["status"] not in byst or byev[f["event"]] not in fsm.events:
+        return None
+    E, S = byev[f["event"]], byst[f["status"]]
+    b = fsm.events[E]
+    d = b.trans.get(S, b.trans.get(None))
+    is_final = S in fsm.final
+    applied = (not is_final) and d is not None
+    new = d[1] if applied and d[0] == "to" else S
+    record = applied and d[0] == "record"
+    entry = applied and not record and new in fsm.entry and new not in fsm.final
+    ev = f["event"]
+    if ev in ERR_EVENTS:
+        args = ', errors.New("replay")'
+    elif ev in U64_EVENTS:
+        args = ", uint64(1)"
+    elif ev in I64_EVENTS:
+        args = ", int64(1)"
+    elif ev in VOUCHER_EVENTS:
+        args = ", voucher"
+    elif ev == "SetRequiresFinalization":
+        args = ", true"
+    else:
+        args = ""
+    src = (FSM_TEST.replace("@STATUS@", str(S)).replace("@EVENT@", str(E)).replace("@ARGS@", args).replace("@NEXT@", str(new))
+           .replace("@ENTRY@", "true" if entry else "false").replace("@OBL@", o["name"].replace('"', "'")))
+    r = run_overlay("channels", "zz_verif_replay_test.go", src, "TestVerifReplayFSM")
+    confirmed = r["built"] and "VERIF-REPLAY-CONFIRMED" in r["output"]
+    return {"template": "fsm-transition", "package_dir": "channels", "test_file": "zz_verif_replay_test.go", "test_name": "TestVerifReplayFSM",
+            "source": src, "cmd": r["cmd"], "output": r["output"][-1500:], "fails_on_real_code": confirmed,
+            "counterexample": {"status": f["status"], "event": f["event"], "predicted_next_status": fsm.status_names.get(new, new),
+                               "predicted_entry_function_runs": entry}}
+
+
+TEMPLATES.append(fsm_template)
